@@ -533,22 +533,42 @@ func runPre(x *h.Ctx, c PreCase) string {
 // (5) waits for system() and piped commands are interrupted
 
 type WaitCase struct {
-	Kind string `json:"kind"` // system | pipe-getline | print-pipe-close
+	Kind  string `json:"kind"`  // system | pipe-getline | print-pipe-close | print-pipe-open-at-end
+	Where string `json:"where"` // begin | function | end
 }
 
-func genWait(t *rapid.T) WaitCase {
-	return WaitCase{Kind: rapid.SampledFrom([]string{"system", "pipe-getline", "print-pipe-close"}).Draw(t, "kind")}
+// enumerated (not drawn): a failing case takes 10 s to decide, so nothing is gained by shrinking
+func enumWait(thorough bool, yield func(WaitCase) bool) {
+	for _, k := range []string{"system", "pipe-getline", "print-pipe-close", "print-pipe-open-at-end"} {
+		for _, w := range []string{"begin", "function", "end"} {
+			if !yield(WaitCase{Kind: k, Where: w}) {
+				return
+			}
+		}
+	}
 }
 
 func runWait(x *h.Ctx, c WaitCase) string {
-	var src string
+	var body string
 	switch c.Kind {
 	case "system":
-		src = `BEGIN { print "before"; tick(); system("sleep 30"); while (1) n++ }`
+		body = `print "before"; tick(); system("sleep 30"); while (1) n++`
 	case "pipe-getline":
-		src = `BEGIN { print "before"; tick(); "sleep 30" | getline x; while (1) n++ }`
+		body = `print "before"; tick(); "sleep 30" | getline x; while (1) n++`
+	case "print-pipe-close":
+		body = `print "before"; print "x" | "sleep 30"; tick(); close("sleep 30"); while (1) n++`
 	default:
-		src = `BEGIN { print "before"; print "x" | "sleep 30"; tick(); close("sleep 30"); while (1) n++ }`
+		// the command is still open when the program ends: the wait happens while the run winds up
+		body = `print "before"; print "x" | "cat >/dev/null; sleep 30"; tick()`
+	}
+	var src string
+	switch c.Where {
+	case "function":
+		src = "function w(   x, i) { " + body + " }\nBEGIN { w() }"
+	case "end":
+		src = "END { " + body + " }"
+	default:
+		src = "BEGIN { " + body + " }"
 	}
 	ctx, cancel := context.WithCancel(context.Background())
 	defer cancel()
@@ -574,22 +594,23 @@ func runWait(x *h.Ctx, c WaitCase) string {
 		select {
 		case e := <-done:
 			return e, true
-		case <-time.After(20 * time.Second):
+		case <-time.After(10 * time.Second):
 			return nil, false
 		}
 	}
 	e, ok := attempt()
 	if !ok {
-		return fmt.Sprintf("cancelling while waiting for %s: the call had not returned 20 s after the cancellation (the command sleeps 30 s)\nprogram: %s", c.Kind, src)
+		return fmt.Sprintf("cancelling while waiting for %s: the call had not returned 10 s after the cancellation (the command sleeps 30 s)\nprogram: %s", c.Kind, src)
 	}
-	if !errors.Is(e, context.Canceled) {
+	if !errors.Is(e, context.Canceled) && !(c.Kind == "print-pipe-open-at-end" && e == nil) {
+		// (when the program itself has already finished and only the final close is waiting, nil is accepted too)
 		return fmt.Sprintf("cancelling while waiting for %s: the call returned %v, not context.Canceled\nprogram: %s", c.Kind, e, src)
 	}
 	if !strings.Contains(rec.String(), "before") {
 		return fmt.Sprintf("output printed before the wait was not delivered: %q", rec.String())
 	}
 	_ = start
-	x.Nontrivial(c.Kind)
+	x.Nontrivial(c.Kind + c.Where)
 	return ""
 }
 
@@ -597,5 +618,5 @@ func init() {
 	h.Prop("never_cancelled_is_invisible", 6000, 100000, genInv, runInv)
 	h.Prop("prompt_stop_at_tick", 3000, 60000, genStop, runStop)
 	h.Prop("precancelled_and_expired", 40, 400, genPre, runPre)
-	h.Prop("waits_interrupted", 6, 30, genWait, runWait)
+	h.Enum("waits_interrupted", enumWait, runWait)
 }
